@@ -328,8 +328,8 @@ def rule_recurrence(ctx, F):
                         if lp.inclusive or lp.step not in (None, ('num', 1)) or None in ends or ends[0][0] != 'cur' or ends[1][0] != 'cur':
                             ctx.undecided('R-REC', F.file, F.name, 'row reset extent', 'unrecognised reset loop shape', lp.line)
                         else:
-                            _equiv_cases(ctx, 'R-REC', F.file, F.name, 'row reset extent (first slot)', ends[0][1], C(0), F.lang, 'reset lo', lp.line)
-                            _equiv_cases(ctx, 'R-REC', F.file, F.name, 'row reset extent (one past last slot)', ends[1][1], lt, F.lang, 'reset hi', lp.line)
+                            _equiv_cases(ctx, 'R-REC', F.file, F.name, 'row reset extent (first slot)', ends[0][1], C(0), F.lang, 'row reset lo', lp.line)
+                            _equiv_cases(ctx, 'R-REC', F.file, F.name, 'row reset extent (one past last slot)', ends[1][1], lt, F.lang, 'row reset hi', lp.line)
     ctx.check(ok, 'R-REC', F.file, F.name, 'row reset', 'the row being written is not reset to infinity before the column loop', F.outer_line)
     # max_step guard: `d > max_step` leaves the cell excluded
     guard = [e for e in F.col.events if e[0] == 'continue']
